@@ -1003,7 +1003,13 @@ func DeepNestProg(n int) *Prog {
 		body = append(body, &Stmt{K: "print", E: &Expr{K: "id", T: "lvl"}})
 		inner = []*Stmt{{K: "def", Name: "n" + strconv.Itoa(i%3), Body: body}}
 	}
-	return &Prog{Stmts: inner}
+	// completed toplevel blocks before and after: when the nesting exceeds the
+	// limit, the run fails and the blocks completed before are still returned
+	first := &Stmt{K: "def", Name: "n0", HasBName: true, BNameLit: `"first"`, Body: []*Stmt{
+		{K: "expr", E: &Expr{K: "asg", T: "k", A: &Expr{K: "int", T: "1"}}},
+		{K: "def", Name: "n1", Body: []*Stmt{{K: "expr", E: &Expr{K: "asg", T: "q", A: &Expr{K: "str", T: `"in"`}}}}}}}
+	last := &Stmt{K: "def", Name: "n2", Body: []*Stmt{{K: "expr", E: &Expr{K: "asg", T: "k", A: &Expr{K: "int", T: "2"}}}}}
+	return &Prog{Stmts: append(append([]*Stmt{first}, inner...), last)}
 }
 
 // SpecialProg draws one of the big-program families that reach the
@@ -1017,7 +1023,7 @@ func SpecialProg(t *rapid.T) (*Prog, string) {
 		n := Pick(t, "nconsts", []int{230, 236, 237, 238, 239, 240, 250, 254, 300, 2300})
 		return ManyConstsProg(n), "special:constants-" + strconv.Itoa(n)
 	case 2:
-		n := Pick(t, "nest", []int{8, 15, 16})
+		n := Pick(t, "nest", []int{8, 15, 16, 17, 18, 24})
 		return DeepNestProg(n), "special:nesting-" + strconv.Itoa(n)
 	default:
 		n := Pick(t, "chain", []int{50, 127, 128, 300, 1000, 1000, 16500, 30000})
